@@ -466,3 +466,107 @@ def require_mc_ok(res, what, expect_violation=None):
         if res.violated is None:
             log(res.out[-3000:])
             raise ToolError("deviation instance %s did not produce the expected counterexample" % what)
+
+
+# --------------------------------------------------------------------------
+# generic scenario driver loop (restart after a death) and generation helpers
+# --------------------------------------------------------------------------
+def drive(bindir, name, scs, wd, reset_ev, end_ev, timeout=1200, extra_args=None, env_extra=None, tag=""):
+    """Run harness binary `name` over the scenarios; if the process dies (hang exit 3, abort,
+    signal) the death is appended to the trace as data and the driver is restarted after the
+    scenario in flight. Scenario ids must be 1..n in order."""
+    spath = os.path.join(wd, "scenarios%s.jsonl" % tag)
+    tpath = os.path.join(wd, "trace%s.ndjson" % tag)
+    with open(spath, "w") as f:
+        for s in scs:
+            f.write(json.dumps(s, separators=(",", ":")) + "\n")
+    if os.path.exists(tpath):
+        os.remove(tpath)
+    start = 0
+    restarts = 0
+    while start < len(scs):
+        rc, out, err = run_bin(bindir, name, [spath, tpath, "--from", start, "--append"] + (extra_args or []),
+                               timeout=timeout, env_extra=env_extra)
+        if rc == 0:
+            break
+        recs = read_ndjson(tpath) if os.path.exists(tpath) else []
+        last = max((i for i, r in enumerate(recs) if r.get("ev") == reset_ev), default=None)
+        if last is None:
+            raise ToolError("driver %s failed before the first scenario: rc=%s %s" % (name, rc, (err or "")[-800:]))
+        sid = recs[last]["scenario"]
+        with open(tpath, "a") as f:
+            if rc != 3:
+                how = "hang" if rc is None else "abort"
+                f.write(json.dumps({"ev": "died", "how": how, "msg": "driver exit %s: %s" % (rc, (err or "").strip()[-300:]),
+                                    "scenario": sid, "step": 0, "seq": 0, "th": 999}) + "\n")
+            f.write(json.dumps({"ev": end_ev, "scenario": sid, "seq": 0, "th": 999}) + "\n")
+        start = sid
+        restarts += 1
+        if restarts > 300:
+            raise ToolError("driver %s keeps dying; giving up" % name)
+    return tpath
+
+
+def tlc_replays(module, cfg_text, name, simulate=None, depth=None, sd=None, workers=4, timeout=900):
+    """Run TLC on a generated cfg and return the JSON payloads of <<"REPLAY", json>> prints."""
+    cfg = "gen_%s_%s_%d.cfg" % (module, name, os.getpid())
+    path = os.path.join(SPEC, cfg)
+    with open(path, "w") as f:
+        f.write(cfg_text)
+    try:
+        r = tlc(module, cfg, workers=(1 if simulate else workers), timeout=timeout, simulate=simulate,
+                depth=depth, seed_=sd, metaname="gen_%s_%s_%d" % (module, name, os.getpid()))
+    finally:
+        os.remove(path)
+    if r.timeout:
+        raise ToolError("scenario generation timed out (%s/%s)" % (module, name))
+    return [json.loads(p[0]) for p in prints_tagged(r, "REPLAY")], r
+
+
+def mc_runs(module, insts, tier, cov, timeout=1800):
+    """insts: list of (cfg, expected_violation or None). Accumulates states/transitions."""
+    w = 8 if tier == "thorough" else 4
+    runs = cov.setdefault("mc_runs", [])
+    for cfg, expect in insts:
+        r = tlc(module, cfg, workers=w, timeout=timeout)
+        require_mc_ok(r, cfg, expect_violation=expect)
+        if expect is None:
+            cov["states"] = cov.get("states", 0) + r.distinct
+            cov["transitions"] = cov.get("transitions", 0) + r.generated
+        runs.append({"module": module, "cfg": cfg, "distinct": r.distinct, "generated": r.generated, "depth": r.depth,
+                     "expected_violation": (r.violated if expect else None), "wall_s": round(r.wall, 1)})
+
+
+def validate_full(trace_module, tpath, timeout=1800, env_extra=None):
+    info = validate_trace(trace_module, trace_module + ".cfg", tpath, timeout=timeout, env_extra=env_extra)
+    if info["consumed"] != info["total"]:
+        raise ToolError("trace %s not fully consumed by %s (%s of %s): malformed record %s" %
+                        (tpath, trace_module, info["consumed"], info["total"], info["consumed"] + 1))
+    return info
+
+
+def selftest_mutations(trace_module, wd, variants):
+    """variants: {name: records}; each corrupted trace must draw at least one VIOL"""
+    res = {}
+    for name, recs in variants.items():
+        p = os.path.join(wd, "selftest_%s.ndjson" % name)
+        write_ndjson(p, recs)
+        info = validate_trace(trace_module, trace_module + ".cfg", p, timeout=180)
+        res[name] = len(info["viols"]) + (1 if info["consumed"] != info["total"] else 0)
+        if res[name] == 0:
+            raise ToolError("binding self-test failed: %s trace accepted by %s" % (name, trace_module))
+    return res
+
+
+def first_segment(tpath, reset_ev, end_ev, want=None, maxlen=500):
+    recs = read_ndjson(tpath)
+    seg = []
+    for r in recs:
+        if r.get("ev") == reset_ev:
+            seg = []
+        seg.append(r)
+        if r.get("ev") == end_ev:
+            if len(seg) <= maxlen and (want is None or want(seg)):
+                return seg
+            seg = []
+    return None
